@@ -10,7 +10,8 @@ variable {F : Type} [Field F] [DecidableEq F] {D : Type} [DecidableEq D]
 set_option linter.unusedSectionVars false
 
 /-- **The published relation of one opening** (Ligero / Brakedown with the code's transcript):
-`v` (and the well-formedness vector, when required) has `n_cols` entries; every opened column comes
+`v` (and the well-formedness vector, when required) has `n_cols` entries and its encoding `E(v)` has
+exactly the `n_ext_cols` entries the commitment announces; every opened column comes
 with a Merkle path at the transcript's position that recomputes the committed root from the column's
 hash; every opened column is consistent with the encoding of `v` under `b` — and with the encoding of
 the well-formedness vector under the squeezed coefficients `r` — at the transcript's position
@@ -102,8 +103,8 @@ theorem lincode_column_matters (pp : Params F D) (point : Point F) (c : Comm D) 
     (hc : π.opening.columns[j]? = some col) (hne : dot b col' ≠ dot b col) :
     ¬ LinCodeRelation pp point c value
       { π with opening := { π.opening with columns := π.opening.columns.set j col' } } o := by
-  obtain ⟨a1, ⟨_, _, _, w, b1, hw, ht1, hcols, _⟩, _⟩ := h
-  rintro ⟨a2, ⟨_, _, _, w2, b2, hw2, ht2, hcols2, _⟩, _⟩
+  obtain ⟨a1, ⟨_, _, _, w, b1, hw, _, ht1, hcols, _⟩, _⟩ := h
+  rintro ⟨a2, ⟨_, _, _, w2, b2, hw2, _, ht2, hcols2, _⟩, _⟩
   simp only at hw2 ht2 hcols2
   rw [ht] at ht1 ht2; cases ht1; cases ht2
   rw [hw] at hw2; cases hw2
@@ -119,6 +120,27 @@ theorem lincode_column_matters (pp : Params F D) (point : Point F) (c : Comm D) 
   rw [hx1] at hx2; cases hx2
   exact hne (hd2.trans hd1.symm)
 
+/-- **the announced codeword length influences the decision**: a transcript in the relation leaves
+it when the commitment's `n_ext_cols` is changed (whatever positions the changed transcript yields),
+because `E(v)` has one length only -/
+theorem lincode_metadata_matters (pp : Params F D) (point : Point F) (c : Comm D) (value : F)
+    (π : Proof F D) (o o' : Oracle F) (h : LinCodeRelation pp point c value π o) (k' : Nat)
+    (hne : k' ≠ c.nExtCols) (value' : F) :
+    ¬ LinCodeRelation pp point { c with nExtCols := k' } value' π o' := by
+  obtain ⟨a1, ⟨_, _, _, w, b1, hw, hl, _⟩, _⟩ := h
+  rintro ⟨a2, ⟨_, _, _, w2, b2, hw2, hl2, _⟩, _⟩
+  rw [hw] at hw2; cases hw2
+  exact hne (hl2.symm.trans hl)
+
+/-- … hence `check` does not accept it -/
+theorem lincode_metadata_tamper_not_accepted (pp : Params F D) (point : Point F) (c : Comm D)
+    (value : F) (π : Proof F D) (o o' : Oracle F)
+    (h : checkOne pp point c value π o = .ok true) (k' : Nat) (hne : k' ≠ c.nExtCols) (value' : F) :
+    checkOne pp point { c with nExtCols := k' } value' π o' ≠ .ok true := fun h' =>
+  lincode_metadata_matters pp point c value π o o'
+    ((lincode_check_one_iff_relation pp point c value π o).1 h) k' hne value'
+    ((lincode_check_one_iff_relation pp point _ value' π o').1 h')
+
 /-! non-vacuity: the relation holds for the toy honest proof, the decision is `Ok(true)` -/
 example : LinCodeRelation (toyPP true) (.uni 5)
     ⟨2, 2, 4, merkleRoot toyHashes (leavesOf (toyPP true) (extOf (toyPP true) [1, 2, 3] toyE 4))⟩
@@ -131,5 +153,13 @@ example : LinCodeRelation (toyPP true) (.uni 5)
 example : toyRun true (.uni 5) [1, 2, 3] ⟨[7, 9], [2, 0, 3]⟩ (evalPoly [1, 2, 3] 5) = .ok true := by
   decide
 example : toyRun true (.uni 5) [1, 2, 3] ⟨[7, 9], [2, 0, 3]⟩ 0 = .ok false := by decide
+/-- the toy honest transcript with the announced codeword length changed from 4 to 2 is refused -/
+example : (2 : Nat) ≠ 4 ∧ (match commit (toyPP true) [1, 2, 3] with
+    | .ok (c, st) =>
+      match openOne (toyPP true) (.uni 5) c st ⟨[7, 9], [1, 0]⟩ with
+      | .ok π => checkOne (toyPP true) (.uni 5) { c with nExtCols := 2 } (evalPoly [1, 2, 3] 5) π
+          ⟨[7, 9], [1, 0]⟩
+      | .error e => .error e
+    | .error e => .error e) = .error .invalidCommitment := by decide
 
 end PCV.C10
